@@ -59,7 +59,12 @@ Pack == \E i \in 1..Len(live) :
            Do([op |-> "pack", pid |-> i, cls |-> live[i].cls, arg |-> <<>>, ok |-> DoPack(DP, live[i].cls, live[i].vals, regs).ok, dev |-> FALSE],
               live, regs)
 
-Next == n < MaxOps /\ (New \/ Unpack \/ SetAttr \/ Mutate \/ Pack)
+\* the user mutates a prototype INSTANCE they handed to Ref(...) earlier: nothing that exists, and no packet constructed
+\* later, may notice (the class took its own copy)
+MutProto == \E x \in P.protos :
+               Do([op |-> "mutproto", pid |-> 0, cls |-> x.cls, arg |-> x, ok |-> TRUE, dev |-> FALSE], live, regs)
+
+Next == n < MaxOps /\ (New \/ Unpack \/ SetAttr \/ Mutate \/ Pack \/ MutProto)
 Spec == Init /\ [][Next]_vars
 
 \* ---- the property, as action properties over the observable snapshot
@@ -71,5 +76,5 @@ Prop_C13_Bystander ==
 Prop_C13_PackPure == [][last'.op = "pack" => (live' = live /\ regs' = regs)]_vars
 
 Emit == (KeepHist /\ n = MaxOps) =>
-    PrintT(<<"EMIT", ToJson([prog |-> Prog, decl |-> P.prog, selshare |-> SelectorSharesObject(P.prog), hist |-> hist])>>)
+    PrintT(<<"EMIT", ToJson([prog |-> Prog, decl |-> P.prog, local |-> P.local, selshare |-> SelectorSharesObject(P.prog), hist |-> hist])>>)
 =============================================================================
